@@ -51,8 +51,10 @@ from vp.harness import Result, UnderTestError, ok, skip, under_test, violation
 PROPERTY = "C14"
 RULE = (
     "Hypothesis draws (class uniformly over the classes found by introspection, argument trees"
-    " by kind up to 3 nested library classes, substitution map, subs|xreplace, pair variant,"
-    " expression key). Non-trivial: an argument of the instance is itself an instance of a"
+    " by kind up to 3 drawn levels of nested library classes (plus the wrappers a kind forces, e.g."
+    " ArraySize/ThreeMomentum: label depth<=5), substitution map, subs|xreplace, pair variant,"
+    " expression key); each shard takes its own slice of the classes as top-level class."
+    " Non-trivial: an argument of the instance is itself an instance of a"
     " library class, or a non-sympy attribute has a non-default value. Distinct = distinct"
     " descriptor hash."
 )
@@ -61,26 +63,42 @@ ASSUMPTIONS = [
     "substitution values respect the assumptions of the symbol they replace (positive symbols are only replaced by positive values); bound symbols (PoolSum indices, integration/summation variables) are never used as values",
     "numeric fallback: 3 fixed points, relative tolerance 1e-10 on max(1,|a|,|b|); points where either side is not finite are not compared and are counted (label numeric:nonfinite)",
     "numeric input for array-valued classes: physical (time-like) four-momenta, |beta|<0.9, positive scalars",
+    "numeric comparisons allow, per element, 10x the change of the value under a 1e-12 relative perturbation of the input (condition estimate; label codegen:ill_conditioned) and leave out events where an ordered comparison gets a complex/nan operand or a log/root is taken on its branch cut (label codegen:events_masked_...): the value of generated code is not defined there",
+    "arguments are typed real/complex by recipe: only Kallen, Kibble and BreakupMomentumSquared receive complex-valued nested arguments; sympy's own failures on exotic nestings (RecursionError inside Piecewise, 'Invalid comparison of non-real') are skipped and counted",
+    "a folded tree that contains a plain sympy Sum (_SymbolicSum) is not lambdified in folded form, and an unfolded form that keeps a symbolic-limit Sum is not lambdified at all (sympy-only printing; sympy's cse does not respect bound variables)",
     "hash(e) != hash(e') is not asserted when the two differing arguments themselves collide under Python's hash (label hash:python_level_collision)",
     "a folded tree containing a library class without numpy printer method may raise PrintMethodNotImplementedError from lambdify: documented sympy behaviour, treated as the contract",
     "as_explicit() comparison is restricted to the physical domain above",
 ]
 BUDGET = {
-    "quick": {"examples": 1600, "shards": 16, "cap_s": 90, "shrink_calls": 150, "shrink_s": 40, "case_timeout_s": 20},
+    "quick": {"examples": 2000, "shards": 16, "cap_s": 80, "shrink_calls": 150, "shrink_s": 30, "case_timeout_s": 10},
     "thorough": {"examples": 40000, "shards": 16, "cap_s": 1500, "shrink_calls": 1000, "shrink_s": 240, "case_timeout_s": 90},
 }
 
 TOL = 1e-10
 MAX_NODES_CODEGEN = 6000  # unfolded expression size above which code generation is skipped (labelled)
 MAX_NODES_NUMERIC = 20000
+MAX_NODES_UNFOLDED = 12000  # above: only the equality / rebuild / expression-key laws are checked
 
 HOWS = ["fresh", "fresh", "number", "number", "expr", "merge", "miss"]
 
 
 # ----------------------------------------------------------------------- strategy
+def shard_env(k, tier):
+    """Each shard takes its own slice of the discovered classes as top-level class (nested
+    arguments are drawn from all classes in every shard)."""
+    return {"VP_GEN_EXPRS_PART": str(k)}
+
+
+def _class_slice(tier):
+    part = os.environ.get("VP_GEN_EXPRS_PART")
+    parts = int(os.environ.get("VP_SHARDS", BUDGET[tier]["shards"]))
+    return G.top_level_names(int(part), parts) if part is not None else None
+
+
 def strategy(tier):
     return st.fixed_dictionaries({
-        "expr": G.instances(3, 2500 if tier == "quick" else 8000),
+        "expr": G.instances(3, 2500 if tier == "quick" else 8000, _class_slice(tier)),
         "subs": st.lists(
             st.fixed_dictionaries({
                 "key": st.integers(0, 11),
@@ -91,7 +109,7 @@ def strategy(tier):
             min_size=1,
             max_size=3,
         ),
-        "mode": st.sampled_from(["xreplace", "subs"]),
+        "mode": st.integers(0, 999).map(lambda i: ["xreplace", "subs"][i % 2]),
         "pair": st.fixed_dictionaries({
             "op": st.sampled_from(["same", "class", "arg", "arg", "attr", "attr"]),
             "i": st.integers(0, 23),
@@ -885,13 +903,18 @@ def run_case(desc) -> Result:
     if G.digest(d) == G.digest(e):
         labels.append("doit:identity")
 
-    for check in (
+    checks = [
         lambda: check_commute(e, d, tree, desc, labels, nontrivial),
         lambda: check_expression_key(e, tree, desc, labels, nontrivial),
         lambda: check_pair(e, tree, desc, labels, nontrivial),
         lambda: check_rebuild(e, labels, nontrivial),
         lambda: check_codegen(e, d, tree, labels, nontrivial),
-    ):
+    ]
+    if G.count_nodes(d, MAX_NODES_UNFOLDED) >= MAX_NODES_UNFOLDED:
+        # the size estimate of the generator was too optimistic: keep the cheap laws only
+        labels.append("unfolded_form_too_large:commute_and_codegen_skipped")
+        checks = checks[1:4]
+    for check in checks:
         try:
             res = check()
         except _SkipCase as exc:
